@@ -86,9 +86,9 @@ def diff_events(rep, tool, pts, with_time, units, max_span=None, argfn=None, tag
                 continue
             p1, p2 = parse(res[(i, j)], units), parse(res[(j, i)], units)
             dead = {u: -1 for u in UNITS}
-            if any(p_ and max(p_[0].values()) >= 2 ** 31 for p_ in (p1, p2)):
+            if any(p_ and (max(p_[0].values()) >= 2 ** 31 or p_[0]["H"] * 3600 + p_[0]["M"] * 60 + p_[0]["S"] >= 2 ** 31) for p_ in (p1, p2)):
                 # the pairs are chosen so that no unit reaches 2^31 (TLC's integers end there): such a value is wrong on its face
-                rep.disagree("ddiff %s%s: a printed unit of 2^31 or more for operands less than 2^31 of it apart" % ("".join(units), tag),
+                rep.disagree("ddiff %s%s: printed time units of 2^31 seconds or more for operands less than that apart" % ("".join(units), tag),
                              {"A": (argfn or (lambda p: text(p, with_time)))(a), "B": text(bb, with_time), "out": res[(i, j)], "rout": res[(j, i)]})
                 continue
             out.append([{"e": "Diff", "cmd": "ddiff %s %s -f '%s'" % ((argfn or (lambda p: text(p, with_time)))(a), text(bb, with_time), fmt_of(units)),
